@@ -78,7 +78,12 @@ def observe():
     if stub.root is not TASK or stub.leaf is not None or stub.error is not None:
         CUR.run.bad.append(["stub_fields", repr(stub)])
     rec = bool(stub.frames)
-    full = extract_child(TG, for_task=False)
+    try:
+        full = extract_child(TG, for_task=False)
+    except RuntimeError:
+        # no extraction is open after all: then the for_task=True call above should have been refused as well
+        CUR.run.bad.append(["extract_child_for_task_did_not_refuse_outside_any_extraction"])
+        return None
     if not full.frames or full.frames[0].pyframe is not TG.gi_frame:
         CUR.run.bad.append(["frames_changed_by_options", len(full.frames)])
         return ("?", rec)
